@@ -2,8 +2,10 @@ use crate::run::*;
 
 pub mod canon;
 pub mod cross;
+pub mod extract;
 pub mod group;
 pub mod history;
+pub mod matching;
 pub mod sesscc;
 pub mod slots;
 
@@ -41,6 +43,9 @@ pub fn registry() -> Vec<Box<dyn Check>> {
         Box::new(sesscc::SessCc { id: "C08" }),
         Box::new(group::GroupCheck),
         Box::new(canon::CanonCheck),
+        Box::new(extract::ExtractCheck),
+        Box::new(matching::MatchCheck),
+        Box::new(matching::FireCheck),
         Box::new(cross::CrossCheck { id: "C11" }),
         Box::new(cross::CrossCheck { id: "C12" }),
         Box::new(history::HistoryCheck),
